@@ -51,16 +51,23 @@ def menu():
          [c("column", n="id"), c("expr", e={"k": "case", "whens": [{"c": eq(col("a"), val()), "r": val("String")}], "else": val("String")})],
          [c("column", n="a"), c("expr_window", e=fn("Sum", col("a")), w=win(True), a="w")],
          [c("column", n="a"), c("expr_window_name", e=fn("Sum", col("a")), w="w1", a="w")]],
-        [[], [c("distinct")]],
+        [[], [c("distinct")], [c("distinct_on", cols=["a"])]],
         [[c("from", t=["t1"])], [c("from_as", t=["t1"], a="u")], [c("from_subquery", q=sel(c("column", n="id"), c("column", n="a"), c("column", n="b"), c("from", t=["t1"]), c("and_where", e=bin_("SmallerThan", col("a"), val()))), a="t1")],
-         [c("from", t=["t1"]), c("from", t=["t2"])]],
+         [c("from", t=["t1"]), c("from", t=["t2"])],
+         [c("from", t=["main", "t1"])],
+         [c("from_values", rows=[[V(), V("String")], [V(), V("String")]], a="t1")]],
         [[], [c("join", jt="Inner", t=["t2"], on=bin_("Equal", tcol("t1", "id"), tcol("t2", "t1_id")))],
          [c("join", jt="Left", t=["t2"], on=cond("all", False, [bin_("Equal", tcol("t1", "id"), tcol("t2", "t1_id")), bin_("GreaterThan", tcol("t2", "x"), val())]))],
-         [c("join_subquery", jt="Inner", q=simple_sub(), a="j", on=bin_("Equal", tcol("j", "t1_id"), tcol("t1", "id")))]],
+         [c("join_subquery", jt="Inner", q=simple_sub(), a="j", on=bin_("Equal", tcol("j", "t1_id"), tcol("t1", "id")))],
+         [c("join", jt="Right", t=["t2"], a="r2", on=bin_("Equal", tcol("t1", "id"), tcol("r2", "t1_id")))],
+         [c("join", jt="Cross", t=["t3"], on=bin_("Equal", tcol("t3", "r"), tcol("t1", "id"))), c("join", jt="Join", t=["t2"], on=bin_("Equal", tcol("t1", "id"), tcol("t2", "t1_id")))],
+         [c("join", jt="FullOuter", t=["t2"], on=bin_("Equal", tcol("t1", "id"), tcol("t2", "t1_id")))],
+         [c("join_lateral", jt="Left", q=simple_sub(), a="l", on=bin_("Equal", tcol("l", "t1_id"), tcol("t1", "id")))]],
         [[], [c("and_where", e=eq(col("a"), val()))], [c("and_where", e=eq(col("a"), val())), c("and_where", e=bin_("NotEqual", col("b"), val()))],
          [c("cond_where", c=cond("any", False, [eq(col("a"), val()), {"k": "in", "neg": False, "e": col("b"), "vs": [val(), val()]}]))],
          [c("and_where", e={"k": "insub", "neg": False, "e": col("id"), "q": simple_sub()})],
-         [c("and_where", e={"k": "between", "neg": False, "e": col("a"), "a": val(), "b": val()}), c("and_where", e={"k": "like", "neg": False, "e": col("c"), "p": "x%", "esc": "|"})]],
+         [c("and_where", e={"k": "between", "neg": False, "e": col("a"), "a": val(), "b": val()}), c("and_where", e={"k": "like", "neg": False, "e": col("c"), "p": "x%", "esc": "|"})],
+         [c("and_where", e=bin_("GreaterThan", bin_("Sub", col("a"), bin_("Sub", col("b"), val())), bin_("Mod", col("b"), bin_("Mod", val(), val()))))]],
         [[], [c("group_by_col", n="a")], [c("group_by_col", n="a"), c("group_by", e=bin_("Mod", col("b"), val()))]],
         [[], [c("and_having", e=bin_("GreaterThan", fn("Count", col("id")), val()))]],
         [[], [c("union", type="All", q=sel(c("column", n="k"), c("from", t=["t2"]), c("and_where", e=eq(col("x"), val()))))],
@@ -69,7 +76,9 @@ def menu():
         [[], [c("order_by", e=col("a"), o={"d": "Asc"})], [c("order_by", e=col("a"), o={"d": "Desc"}, nulls="Last"), c("order_by", e=col("id"), o={"d": "Asc"})],
          [c("order_by", e=col("a"), o={"d": "Field", "field": [V(), V()]})], [c("order_by", e=bin_("Add", col("a"), val()), o={"d": "Asc"}, nulls="First")]],
         [[], [c("limit", n=3)], [c("limit", n=3), c("offset", n=1)]],
-        [[], [c("lock", type="Update")], [c("lock", type="Share", tables=[["t1"]], behavior="SkipLocked")]],
+        [[], [c("lock", type="Update")], [c("lock", type="Share", tables=[["t1"]], behavior="SkipLocked")], [c("lock", type="NoKeyUpdate", behavior="Nowait")]],
+        [[], [c("table_sample", method="SYSTEM", pct=50)], [c("table_sample", method="BERNOULLI", pct=10, rep=3)]],
+        [[], [c("use_index", name="ix_a", scope="All")], [c("force_index", name="ix_a", scope="OrderBy"), c("ignore_index", name="ix_b", scope="Join")]],
         [[], [c("window", name="w1", w=win(False))], [c("window", name="w1", w=win(True))]],
         [[], [c("with_cte", w={"ctes": [{"name": "cte", "cols": ["k"], "q": sel(c("column", n="k"), c("from", t=["t2"]), c("and_where", e=eq(col("x"), val())))}]})],
          [c("with_cte", w=rec_with(search=True))], [c("with_cte", w=rec_with(cycle=True))], [c("with_cte", w=rec_with(search=True, cycle=True))],
@@ -93,7 +102,8 @@ def menu():
     ]
     update = [
         [[c("table", t=["t1"])]],
-        [[c("value", col="a", e=val())], [c("value", col="a", e=val()), c("value", col="c", e=val("String"))], [c("value", col="a", e=bin_("Add", col("a"), val()))]],
+        [[c("value", col="a", e=val())], [c("value", col="a", e=val()), c("value", col="c", e=val("String"))], [c("value", col="a", e=bin_("Add", col("a"), val()))],
+         [c("value", col="a", e=bin_("Sub", col("a"), bin_("Sub", col("b"), val()))), c("value", col="b", e=bin_("Div", col("b"), bin_("Div", val(), val())))]],
         [[], [c("from", t=["t2"])], [c("from", t=["t2"]), c("from", t=["t3"])]],
         [[], [c("and_where", e=eq(col("b"), val()))], [c("cond_where", c=cond("any", False, [eq(col("b"), val()), eq(col("b"), val())]))],
          [c("and_where", e=bin_("Equal", tcol("t1", "id"), tcol("t2", "t1_id"))), c("and_where", e=bin_("GreaterThan", tcol("t2", "x"), val()))]],
